@@ -220,10 +220,29 @@ func (m *MatchHTTP) handleHttp2WithPriorKnowledge(reader io.Reader, req *http.Re
 		return fmt.Errorf("failed to read a http2 headers frame after %d attempts", maxAttempts)
 	}
 
+	// A header block can repeat a large field with a one-byte index each time, so a
+	// block that fits the matching buffer may stand for megabytes of header fields:
+	// the decoded list is bounded the way net/http bounds it (RFC 7541 field size).
+	const maxHeaderListSize = 8 * layer4.MaxMatchingBytes
+	var headers []hpack.HeaderField
+	var headerListSize uint32
 	decoder := hpack.NewDecoder(4096, nil) // max table size 4096 from http2.initialHeaderTableSize
-	headers, err := decoder.DecodeFull((frame.(*http2.HeadersFrame)).HeaderBlockFragment())
-	if err != nil {
+	decoder.SetEmitFunc(func(f hpack.HeaderField) {
+		headerListSize += f.Size()
+		if headerListSize > maxHeaderListSize {
+			decoder.SetEmitEnabled(false)
+			return
+		}
+		headers = append(headers, f)
+	})
+	if _, err = decoder.Write((frame.(*http2.HeadersFrame)).HeaderBlockFragment()); err != nil {
 		return err
+	}
+	if err = decoder.Close(); err != nil {
+		return err
+	}
+	if headerListSize > maxHeaderListSize {
+		return fmt.Errorf("http2 header list is larger than %d bytes", maxHeaderListSize)
 	}
 
 	var scheme string
